@@ -22,6 +22,9 @@ def main():
     sys.path.insert(1, vdir)
     sys.dont_write_bytecode = True
 
+    from sim import simlock
+    simlock.install()      # before the package is imported: locks it creates are visible to the scheduler
+
     import python_minifier
     import python_minifier.__main__ as pm_main  # noqa: F401  (imported, not run)
 
